@@ -43,6 +43,14 @@ fn main() {
             vec![
                 ("use dashmap::DashMap;", "use crate::shim::DashMap;".into()),
                 ("use std::sync::atomic::", atom.into()),
+                (
+                    "static INSTANCE: AtomicUsize = AtomicUsize::new(0);",
+                    if loomq {
+                        "loom::lazy_static! { static ref INSTANCE: AtomicUsize = AtomicUsize::new(0); }".into()
+                    } else {
+                        "static INSTANCE: AtomicUsize = AtomicUsize::new(0);".into()
+                    },
+                ),
             ],
         ),
     ];
